@@ -2,22 +2,63 @@
   C15  Any text given as a host expression is handled safely and within limits.
   PROPERTY THEOREMS ONLY (helper lemmas live in PdshVerif/Hostlist/Lemmas*.lean).
 
-  Totality: `create : Cfg → Str → Outcome HL` is a total Lean function (structural recursion and
-  fuel only, no `partial`), so for EVERY text the model answers ok / null+errno / ub / diverge; the
-  last two mark the places where the C code reads an unterminated buffer (D18) or loops for ever
-  (`pushSuffixRange`, theorem `suffix_loop_diverges_iff`); `create_returns` proves them unreachable
-  in the repaired variant.  Memory safety and the CPU / memory ceilings of the compiled code are
-  observed by the correspondence (ASan/UBSan, per-call limits), not proved.
-
   The model is parametrised by `cfg : Cfg` (which recorded defects the source still carries; the
-  driver uses the variant PROBED from /repo).  Statements that are false of the unchanged code are
-  proved at full strength with the repairing switch as hypothesis (`range_limit`,
-  `nonnumeric_einval`, `unbalanced_einval`, `create_returns`), in `_partial` form for every
-  variant, and refuted for `Cfg.unchanged` by a `decide`d witness.
+  driver uses the variant PROBED from /repo).  Statements that are false of the code as found are
+  proved at full strength with the repairing switches as hypotheses, in `_partial` form for every
+  variant, and refuted for `Cfg.unchanged` by a `decide`d witness.  /repo HEAD carries all the
+  repairs (the probe says so on every run), so the full-strength theorems are the ones about the
+  tree that is checked.
+
+  clause of the property text                      theorem(s)                         domain
+  -----------------------------------------------  ---------------------------------  ---------------------
+  "for every byte string … parsing terminates"     create is a total Lean function;   every text, every cfg
+                                                   tokens_fuel_suffices, tokens_unfold
+                                                   (fuel |s|+1 never cuts the loop),
+                                                   wcollExpand_fuel_suffices
+  "either yields a host list or fails cleanly"     create_returns                     every text, D15+D18 on
+                                                   create_ok_iff (EXACTLY which       every text, repaired
+                                                   texts yield a list)
+  "never touches memory out of bounds"             ranges_in_bounds (ranges[10240]),  every text, every cfg
+                                                   host_buffer_is_snprintf,
+                                                   next_buffer_is_snprintf (explicit
+                                                   buffers, both variants of D23/D17),
+                                                   plain_word_long_ub (C01; D18)
+                                                   + ASan/UBSan on the real code
+  "never more than 16384 hosts per range"          range_limit / _partial / _false    every text
+                                                   create_count_le (≤ 16384·|s| hosts every text, every cfg
+                                                   for the whole call), create_good,
+                                                   create_walk (counter exact, the
+                                                   walk ends after `count` names)
+  "unbalanced brackets … make the parse fail"      unbalanced_text_fails (whole text, every text, repaired
+                                                   spec's `balanced`),
+                                                   unbalanced_einval, token_ok_iff    every token, repaired
+                                                   unmatched_open/close_einval        every cfg
+  "reversed … ranges make the parse fail"          reversed_einval, item_invalid_iff, every item text
+                                                   reversed_never_accepted
+  "non-numeric ranges make the parse fail"         nonnumeric_einval, item_ok_iff,    every item text
+                                                   item_invalid_iff
+  "a range larger than the limit — however large   item_verdict (ONE equation for     every item text,
+   the numbers typed — is refused with 'too many    every text, strtoul saturation    numbers of any length
+   hosts' instead of expanded / wrapped / OOM"      inside), item_too_many_iff,
+                                                   too_many_however_large,
+                                                   too_many_erange, too_many_huge
+  the same, against the INDEPENDENT reader of      item_refines_spec                  every item text
+   Hostlist/Spec.lean (what checks/c15.py tests)
+
+  NOT PROVED: the CPU / memory ceilings of the compiled code and the absence of out-of-bounds
+  accesses in the C text itself (pointer arithmetic inside the strdup'ed copy) are observed by the
+  correspondence (ASan/UBSan, per-call limits), the model works on lists; `create_ok_iff` is
+  stated with the model's own tokenizer (`tokens`), not yet against `Spec.classify`'s reader of
+  whole texts (the item level is: `item_refines_spec`); glibc `strtoul`/`snprintf` are modelled.
 -/
 import PdshVerif.Hostlist.LemmasParse
 import PdshVerif.Hostlist.LemmasCreate
 import PdshVerif.Hostlist.LemmasRepaired
+import PdshVerif.Hostlist.LemmasLimits
+import PdshVerif.Hostlist.LemmasAccept
+import PdshVerif.Hostlist.LemmasBounds
+import PdshVerif.Hostlist.LemmasGood
+import PdshVerif.Hostlist.LemmasUnbalanced
 
 namespace PdshVerif.C15
 open PdshVerif.Hostlist PdshVerif.Gen
@@ -296,4 +337,193 @@ theorem create_fails_at_first_bad_token (cfg : Cfg) (st st' : PSt) (good : List 
     | ub _ => rw [hg] at h1; simp at h1
     | diverge => rw [hg] at h1; simp at h1
 
+/-! ## full strength for EVERY text (repaired variant = /repo HEAD as probed) -/
+
+/-- THE REPAIRED `_parse_single_range` AS ONE EQUATION over every item text.  `itemLo`/`itemHi`
+    are the numbers AS TYPED (unbounded), `clampU` is `strtoul`'s saturation at 2^64-1:
+    not `digits` / `digits-digits` ⇒ invalid; reversed ⇒ invalid; reaching 2^64-1 or spanning
+    MAX_RANGE (16384) or more ⇒ "too many hosts"; otherwise the typed numbers, the width of the
+    low bound as typed, `errno` untouched -/
+theorem item_verdict (cfg : Cfg) (h15 : cfg.fixUlongMax = true) (h16 : cfg.fixDigits = true)
+    (e : Nat) (s : Str) :
+    parseSingleRange cfg e s =
+      if numericItem s = false then .fail EINVAL .invalidRange
+      else if clampU (itemHi s) < clampU (itemLo s) then .fail EINVAL .invalidRange
+      else if ULONG_MAX ≤ itemHi s ∨ MAX_RANGE ≤ itemHi s - itemLo s then .fail ERANGE .tooMany
+      else .ok ⟨itemLo s, itemHi s, itemWidth s⟩ e :=
+  parseSingleRange_repaired cfg h15 h16 e s
+
+/-- accepted ⇔ numeric, ordered, below 2^64-1, fewer than MAX_RANGE apart (and then: the typed
+    numbers, width of the low bound as typed) -/
+theorem item_ok_iff (cfg : Cfg) (h15 : cfg.fixUlongMax = true) (h16 : cfg.fixDigits = true)
+    (e : Nat) (s : Str) (r : SR) (e' : Nat) :
+    parseSingleRange cfg e s = .ok r e' ↔
+      numericItem s = true ∧ itemLo s ≤ itemHi s ∧ itemHi s < ULONG_MAX ∧
+        itemHi s - itemLo s < MAX_RANGE ∧ r = ⟨itemLo s, itemHi s, itemWidth s⟩ ∧ e' = e :=
+  Hostlist.item_ok_iff cfg h15 h16 e s r e'
+
+/-- refused with ERANGE + "Too many hosts" ⇔ numeric, not reversed after saturation, and reaching
+    2^64-1 or spanning MAX_RANGE or more -/
+theorem item_too_many_iff (cfg : Cfg) (h15 : cfg.fixUlongMax = true) (h16 : cfg.fixDigits = true)
+    (e : Nat) (s : Str) :
+    parseSingleRange cfg e s = .fail ERANGE .tooMany ↔
+      numericItem s = true ∧ clampU (itemLo s) ≤ clampU (itemHi s) ∧
+        (ULONG_MAX ≤ itemHi s ∨ MAX_RANGE ≤ itemHi s - itemLo s) :=
+  Hostlist.item_too_many_iff cfg h15 h16 e s
+
+/-- refused with EINVAL + "Invalid range" ⇔ non-numeric or reversed -/
+theorem item_invalid_iff (cfg : Cfg) (h15 : cfg.fixUlongMax = true) (h16 : cfg.fixDigits = true)
+    (e : Nat) (s : Str) :
+    parseSingleRange cfg e s = .fail EINVAL .invalidRange ↔
+      numericItem s = false ∨ clampU (itemHi s) < clampU (itemLo s) :=
+  Hostlist.item_invalid_iff cfg h15 h16 e s
+
+/-- HOWEVER LARGE THE NUMBERS TYPED: a numeric range, ordered as typed, spanning 16384 or more is
+    refused with the too-many-hosts outcome — no hypothesis on the number of digits, none on the
+    low bound (compare `too_many_erange`, `too_many_huge`, which hold in every variant) -/
+theorem too_many_however_large (cfg : Cfg) (h15 : cfg.fixUlongMax = true) (h16 : cfg.fixDigits = true)
+    (e : Nat) (s : Str) (hn : numericItem s = true) (hle : itemLo s ≤ itemHi s)
+    (hsz : MAX_RANGE ≤ itemHi s - itemLo s) :
+    parseSingleRange cfg e s = .fail ERANGE .tooMany :=
+  Hostlist.too_many_however_large cfg h15 h16 e s hn hle hsz
+
+/-- a range reversed as typed is never accepted, however large its numbers -/
+theorem reversed_never_accepted (cfg : Cfg) (h15 : cfg.fixUlongMax = true) (h16 : cfg.fixDigits = true)
+    (e : Nat) (s : Str) (hrev : itemHi s < itemLo s) :
+    ∃ e' f, parseSingleRange cfg e s = .fail e' f :=
+  reversed_fails cfg h15 h16 e s hrev
+
+/-- REFINEMENT OF THE INDEPENDENT SPEC, item level, every text (what checks/c15.py tests on
+    samples): a problem named by `Spec.itemProblems` ⇒ failure; `tooMany` ⇒ ERANGE + "Too many
+    hosts"; no problem and bounds below 2^64-1 ⇒ accepted with the numbers and width the spec
+    reads; no problem but a bound ≥ 2^64-1 (text silent) ⇒ refused as too many -/
+theorem item_refines_spec (cfg : Cfg) (h15 : cfg.fixUlongMax = true) (h16 : cfg.fixDigits = true)
+    (e : Nat) (s : Str) :
+    (Spec.itemProblems s ≠ [] → ∃ e' f, parseSingleRange cfg e s = .fail e' f) ∧
+    (Spec.itemProblems s = [.tooMany] → parseSingleRange cfg e s = .fail ERANGE .tooMany) ∧
+    (Spec.itemProblems s = [] → Spec.itemNote64 s = false →
+      ∃ lo hi w, Spec.readItem s = .ok (lo, hi, w) ∧ parseSingleRange cfg e s = .ok ⟨lo, hi, w⟩ e) ∧
+    (Spec.itemProblems s = [] → Spec.itemNote64 s = true →
+      parseSingleRange cfg e s = .fail ERANGE .tooMany) :=
+  Hostlist.item_refines_spec cfg h15 h16 e s
+
+/-- GROUP LEVEL: a bracket body is accepted ⇔ at most MAX_RANGES (10240) comma items, each an
+    accepted range; the records are the items' typed numbers, in order -/
+theorem group_ok_iff (cfg : Cfg) (h15 : cfg.fixUlongMax = true) (h16 : cfg.fixDigits = true)
+    (e : Nat) (body : Str) (rs : Array SR) (e' : Nat) :
+    parseRangeList cfg e body = .ok rs e' ↔
+      (splitAll ',' body).length ≤ MAX_RANGES ∧ (∀ it ∈ splitAll ',' body, itemOk it) ∧
+        rs.toList = (splitAll ',' body).map itemSR ∧ e' = e :=
+  parseRangeList_ok_iff cfg h15 h16 e body rs e'
+
+/-- TOKEN LEVEL: a token is accepted ⇔ its brackets balance (anywhere in the token) and its first
+    group is accepted -/
+theorem token_ok_iff (cfg : Cfg) (h15 : cfg.fixUlongMax = true) (h16 : cfg.fixDigits = true)
+    (h18 : cfg.fixCurTok = true) (h22 : cfg.fixSuffixBal = true) (st : PSt) (tok : Str) :
+    (∃ st', pushTok cfg st tok = .ok st') ↔ tokOk tok :=
+  pushTok_ok_iff cfg h15 h16 h18 h22 st tok
+
+/-- CALL LEVEL, every text: `hostlist_create` yields a list ⇔ every token is accepted; otherwise
+    it returns NULL with an errno (`create_returns`) — there is no third outcome -/
+theorem create_ok_iff (cfg : Cfg) (h15 : cfg.fixUlongMax = true) (h16 : cfg.fixDigits = true)
+    (h18 : cfg.fixCurTok = true) (h22 : cfg.fixSuffixBal = true) (s : Str) :
+    (∃ h, create cfg s = .ok h) ↔ ∀ t ∈ tokens hlSep s, tokOk t :=
+  Hostlist.create_ok_iff cfg h15 h16 h18 h22 s
+
+/-- UNBALANCED TEXT ⇒ FAILURE, whole-text level, against the SPEC's own predicate `Spec.balanced`
+    (written without the model): a text whose brackets do not match anywhere is refused -/
+theorem unbalanced_text_fails (cfg : Cfg) (h15 : cfg.fixUlongMax = true) (h16 : cfg.fixDigits = true)
+    (h18 : cfg.fixCurTok = true) (h22 : cfg.fixSuffixBal = true) (s : Str)
+    (hu : Spec.balanced 0 s = false) : ∃ e f, create cfg s = .null e f :=
+  Hostlist.unbalanced_text_fails cfg h15 h16 h18 h22 s hu
+
+/-! ## limits and bounds that hold in EVERY variant, for every text -/
+
+/-- `struct _range ranges[MAX_RANGES]`: the parser writes `ranges[count++]` only for
+    count < MAX_RANGES — an accepted group has one record per item and at most MAX_RANGES -/
+theorem ranges_in_bounds (cfg : Cfg) (e : Nat) (body : Str) (rs : Array SR) (e' : Nat)
+    (h : parseRangeList cfg e body = .ok rs e') :
+    rs.size = (splitAll ',' body).length ∧ rs.size ≤ MAX_RANGES :=
+  Hostlist.ranges_in_bounds cfg e body rs e' h
+
+/-- a text of n bytes never yields more than MAX_RANGE · n hosts, whatever numbers it contains:
+    result size (and with it the work and memory of the call) is linear in the text length -/
+theorem create_count_le (cfg : Cfg) (s : Str) (h : HL) (hc : create cfg s = .ok h) :
+    h.count ≤ (MAX_RANGE * s.length : Nat) :=
+  Hostlist.create_count_le cfg s h hc
+
+/-- EVERY ACCEPTED TEXT YIELDS A WELL-FORMED LIST (D15/D25 repaired): every range record has
+    lo ≤ hi < 2^64-1 and the cached counter `hostlist_count` equals the number of denoted hosts —
+    no wrapped, empty or "negative" record can come out of the parser, whatever was typed -/
+theorem create_good (cfg : Cfg) (h15 : cfg.fixUlongMax = true) (s : Str) (h : HL)
+    (hc : create cfg s = .ok h) : h.Good :=
+  Hostlist.create_good cfg h15 s h hc
+
+/-- WALKING WHAT WAS ACCEPTED (every text; with C01's iteration theorem): `hostlist_next` until
+    NULL yields exactly the denoted hosts and stops after `hostlist_count` of them, which is at
+    most 16384 · (text length) -/
+theorem create_walk (cfg : Cfg) (h15 : cfg.fixUlongMax = true) (h17 : cfg.fixIterSuffix = true)
+    (s : Str) (h : HL) (hc : create cfg s = .ok h) (n : Nat) (hn : h.hosts.length ≤ n) :
+    iterAll cfg h n = h.hosts ∧ h.count = h.hosts.length ∧
+      h.hosts.length ≤ MAX_RANGE * s.length :=
+  Hostlist.create_walk cfg h15 h17 s h hc n hn
+
+/-- TERMINATION, tokenizer: the fuel the model passes (text length + 1) always suffices … -/
+theorem tokens_fuel_suffices (sep s : Str) (f : Nat) (hf : s.length < f) :
+    tokensFuel sep f s = tokens sep s :=
+  Hostlist.tokens_fuel_suffices sep s f hf
+
+/-- … so `tokens` is exactly the loop `while ((tok = _next_tok(sep, &str)) != NULL)` -/
+theorem tokens_unfold (sep s : Str) :
+    tokens sep s = match nextTok sep s with
+      | none => []
+      | some (t, r) => t :: tokens sep r :=
+  Hostlist.tokens_unfold sep s
+
+/-- TERMINATION, `wcoll_expand`: the fuel `nhosts + 1` always suffices; by `create_count_le` it
+    is at most 16384 · (text length) + 1 -/
+theorem wcollExpand_fuel_suffices (cfg : Cfg) (h : HL) (f : Nat) (hf : h.nhosts.toNat < f) :
+    wcollExpandLoop cfg f h.ranges.toList h.nhosts HL.new = wcollExpand cfg h :=
+  Hostlist.wcollExpand_fuel_suffices cfg h f hf
+
+/-- EXPLICIT BUFFER of `_push_range_list_with_suffix`: the name the model pushes is what
+    `snprintf(host, size, ..)` leaves in a buffer of the C code's size — `host[4096]` in the code
+    as found (names cut at 4095 bytes, D23), `malloc(strlen(pfx)+strlen(sfx)+max(width,20)+1)` in
+    the repaired code, where nothing is ever cut: no write outside the buffer in either -/
+theorem host_buffer_is_snprintf (cfg : Cfg) (pfx sfx : Str) (w j : Nat) (hj : j ≤ ULONG_MAX) :
+    suffixedName cfg pfx sfx w j =
+      snprintfC (if cfg.fixHostBuf then hostBufLen pfx sfx w else HOSTBUF) (pfx ++ fmtPad w j ++ sfx) :=
+  suffixedName_is_snprintf cfg pfx sfx w j hj
+
+/-- EXPLICIT BUFFER of `hostlist_next`: `suffix[16]` written with size 15 in the code as found
+    (D17), `malloc(strlen(prefix)+max(width,20)+1)` in the repaired code (whole name fits) -/
+theorem next_buffer_is_snprintf (cfg : Cfg) (r : HRange) (d : Nat) :
+    r.pre ++ iterSuffix cfg (fmtPad r.width (addU64 r.lo d)) =
+      if cfg.fixIterSuffix then snprintfC (nextBufLen r) (r.pre ++ fmtPad r.width (addU64 r.lo d))
+      else r.pre ++ snprintfC 15 (fmtPad r.width (addU64 r.lo d)) :=
+  iterSuffix_is_snprintf cfg r d
+
 end PdshVerif.C15
+
+/-! non-vacuity of the full-strength statements (the hypotheses are met by `Cfg.repaired`, the
+    predicates are inhabited, and the instances are derived THROUGH the theorems) -/
+section Examples15
+open PdshVerif.Hostlist PdshVerif.Gen
+
+example : Cfg.repaired.fixUlongMax = true ∧ Cfg.repaired.fixDigits = true ∧
+    Cfg.repaired.fixCurTok = true ∧ Cfg.repaired.fixSuffixBal = true := by decide
+example : itemOk "007-12".toList := by decide
+example : ¬ itemOk "12-007".toList := by decide
+example : tokOk "a[1-3,007]x[2]".toList ∧ ¬ tokOk "a[1-3]]".toList ∧ ¬ tokOk "a[1-x]".toList := by decide
+/-- a 30-digit high bound: refused as too many, through `too_many_however_large` -/
+example : parseSingleRange Cfg.repaired 0 "5-999999999999999999999999999999".toList = .fail ERANGE .tooMany :=
+  PdshVerif.C15.too_many_however_large Cfg.repaired rfl rfl 0 _ (by decide) (by decide) (by decide)
+/-- a whole text accepted, through `create_ok_iff` -/
+example : ∃ h, create Cfg.repaired "a[1-3,7]x, b".toList = .ok h :=
+  (PdshVerif.C15.create_ok_iff Cfg.repaired rfl rfl rfl rfl _).mpr (by decide)
+/-- and one refused (second token unbalanced), through the same theorem -/
+example : ¬ ∃ h, create Cfg.repaired "a[1-3] b]".toList = .ok h := by
+  rw [PdshVerif.C15.create_ok_iff Cfg.repaired rfl rfl rfl rfl]; decide
+example : ∃ e f, create Cfg.repaired "a[1-3] b]".toList = .null e f :=
+  PdshVerif.C15.unbalanced_text_fails Cfg.repaired rfl rfl rfl rfl _ (by decide)
+end Examples15
